@@ -99,11 +99,12 @@ def references(ctx, report):
                           "why": "asking the caption set instead of the document leaves a dangling reference when the "
                                  "style has no writable attribute and is therefore not emitted"}, "3")
     # region ids
-    gp = ctx.index.get_function(DFXP, "RegionCreator.get_positioning_info")
+    gp = ctx.index.get_function(DFXP, "RegionCreator.get_positioning_info", inline=True)
     report.covered(gp)
-    t = src(gp.node)
-    ok = "region_id = self._region_map.get(layout_info)" in t and re.search(r"if not region_id:\s+region_id = DFXP_DEFAULT_REGION_ID", t)
-    report.check(bool(ok), "R-DOMINATES", gp, "a region id is taken from the region table or is the default region id", None, "3")
+    from .c12 import region_id_source
+    ok, how = region_id_source(gp)
+    report.check(bool(ok), "R-DOMINATES", gp, "a region id is taken from the region table or is the default region id",
+                 {"region_id_is": how}, "3")
     cd = ctx.index.get_function(DFXP, "RegionCreator.create_document_regions")
     report.covered(cd)
     calls = [c for c in walk_no_nested(cd.node) if isinstance(c, ast.Call) and (call_name(c) or "").endswith("_create_unique_regions")]
@@ -117,7 +118,7 @@ def references(ctx, report):
 
 
 def regions(ctx, report):
-    gp = ctx.index.get_function(DFXP, "RegionCreator.get_positioning_info")
+    gp = ctx.index.get_function(DFXP, "RegionCreator.get_positioning_info", inline=True)
     cl = PR.call_classifier({"_assigned_region_ids.add": "MARK"})
     paths = PR.paths_of_block(gp.node.body, cl)
     bad = [PR.flat(ev) for ev, end in paths if end == "return" and "MARK" not in PR.flat(ev)]
